@@ -18,6 +18,7 @@ import common
 from common import lean_obligations, build_harness, hx, unhx, run_vdyn, run_model
 from gram import Gram, random_grammar
 import treeparse as tp
+import tablecorr
 
 LEVEL = "proof"
 PROP_MODULE = "Rustemo.Props.C05"
@@ -348,7 +349,8 @@ def compile_all(cases):
         if c.ans.startswith("dump ok "):
             c.dump_text = c.ans[len("dump ok "):]
             c.dump = tp.parse_dump(c.dump_text)
-            reqs.append([f"resolve {FIXES} " + c.dump_text])
+            # corr:table: the whole table against the Lean model of the construction, next to the per-cell `resolve`
+            reqs.append([f"resolve {FIXES} " + c.dump_text, "load " + c.dump_text, tablecorr.REQUEST])
             rc.append(c)
         else:
             c.dump = None
@@ -359,6 +361,7 @@ def compile_all(cases):
         outs = run_model(reqs, tag="c05-model")
         for c, o in zip(rc, outs):
             c.model = o[0]
+            c.table_ans = o[2] if len(o) > 2 else None
     return cases
 
 
@@ -872,9 +875,12 @@ def evaluate(rep, cases, proofs_ok, want_exhaustive=True):
     known = known_keys()
     corr_breaks, failures, known_hits = [], [], {}
     sr_seen, rr_seen = set(), set()
+    tie = tablecorr.TableTie()
     for c in cases:
         c.sr_seen, c.rr_seen = set(), set()
         rep.count("cases:" + c.tag)
+        if getattr(c, "table_ans", None) is not None and c.model not in ("bad-request", "driver-crash", None):
+            tie.judge(rep, c, c.table_ans)
         if c.raw is None:
             rep.count("raw_compile_failed:" + " ".join(c.ans.split(" ")[1:3]))
             continue
@@ -931,7 +937,9 @@ def evaluate(rep, cases, proofs_ok, want_exhaustive=True):
         seen_keys.add(key)
         rep.violation(dict(c.describe(), why=w, kind="impl!=oracle", suspected_finding=key, **payload))
         shown += 1
-    if not failures:
+    # Tie A for the construction: whole table vs `Table.build` (kind impl!=model, replay = grammar + settings)
+    n_table = tie.report(rep, lambda c: c.describe(), min(3, shown))
+    if not failures and not n_table:
         if corr_breaks:
             c, w = min(corr_breaks, key=lambda f: len(f[0].text))
             rep.violation(dict(c.describe(), why="correspondence corr:resolve broken (Lean model Resolve.stateCell != real "
